@@ -230,7 +230,7 @@ func runC20(t *testing.T, sc C20Scenario, keep bool) *core.Result {
 		judge := func(where string, q C20Query, req *dns.Msg, rep *c20Reply, client string) {
 			for i, m := range rep.msgs {
 				for j := 0; j < i; j++ {
-					if d := diffResponses(m, rep.msgs[j], q.Q >= 0 && gen.Weighted(q.Q)); d != "" {
+					if d := diffResponses(m, rep.msgs[j], q.Q >= 0 && gen.Weighted(q.Q), q.Q >= 0 && gen.WeightedExtra(q.Q)); d != "" {
 						res.Add("inconsistent-duplicates", "inconsistent-duplicates", fmt.Sprintf("%s: two responses to the same (duplicated) query differ: %s", where, d))
 						return
 					}
@@ -313,7 +313,7 @@ func runC20(t *testing.T, sc C20Scenario, keep bool) *core.Result {
 				res.HarnessErr = fmt.Sprintf("%s: cannot pack the reference response: %v", where, perr)
 				return
 			}
-			if d := diffResponses(m, want, q.Q >= 0 && gen.Weighted(q.Q)); d != "" {
+			if d := diffResponses(m, want, q.Q >= 0 && gen.Weighted(q.Q), q.Q >= 0 && gen.WeightedExtra(q.Q)); d != "" {
 				proto := "udp"
 				if q.TCP {
 					proto = "tcp"
